@@ -33,7 +33,7 @@ def oshapeOf : String → Option OShape
 
 /-! independent executable spec of the ordering step -/
 
-def specKeyKinds (pi : Nat) (l : List Rule) : Option (List (Option Nat × String)) :=
+def specKeyKinds (pi : Nat) (l : List Rule) : Option (List (Option Int × String)) :=
   l.mapM fun r => (r[pi]?).map fun s => (prioOfString s, s)
 
 def specPrio (pi : Nat) (l : List Rule) : String :=
